@@ -33,6 +33,33 @@ structure VarFact where
   reads : List Site
   deriving DecidableEq, Repr, Inhabited
 
+/-- what one statement after `pool.Get()` does to the object -/
+inductive StepKind where
+  | set (f : String)   -- `v.f = e`
+  | setAll             -- `*v = e`
+  | use                -- anything else that mentions v: the object is published
+  deriving DecidableEq, Repr, Inhabited
+
+/-- one statement of the initialisation sequence: the fields of the object it reads (`v.g` in `e`) and
+whether the object itself is used as a value -/
+structure InitStep where
+  pos : String
+  kind : StepKind
+  reads : List String
+  whole : Bool
+  deriving DecidableEq, Repr, Inhabited
+
+/-- kind of a top-level statement of a function that Puts -/
+inductive StmtKind where
+  | other | release | ret
+  deriving DecidableEq, Repr, Inhabited
+
+structure PutFunc where
+  pkg : String
+  fn : String
+  stmts : List (String × StmtKind)
+  deriving DecidableEq, Repr, Inhabited
+
 /-- one `pool.Get()` site: the pooled struct's field list and the fields assigned before the object
 is first read or escapes -/
 structure GetSite where
@@ -47,6 +74,7 @@ structure GetSite where
   whole : Bool
   stop : String
   initPos : List String
+  steps : List InitStep
   deriving DecidableEq, Repr, Inhabited
 
 /-- one `pool.Put(x)` site: the loops around it (outermost first) and whether it lies in the release
